@@ -14,7 +14,7 @@ ops (parameters = answers of the real code, see harness/c24.cpp):
   mark <n> (<hex file> <line>)*n             -> - | <state>
   recv <globsOk> <suppr>                     -> - | <state>       (<suppr> = the worker's entry; the parent sees `wire` of it)
   thread                                     -> - | <state>
-  wire                                       -> <suppr>* | <state>   (what a worker with this list sends)
+  wire <skipHash>                            -> <suppr>* | <state>   (what a worker with this list sends)
   ul <pm bits> / ug / ui                     -> <suppr>* | <state>
   report <inline> <k> <pm bits>*k <filter bits>   -> <message>* | <state>
       message = <polyspace>:<hex id>:<hex file>:<line>:<column>
@@ -107,7 +107,7 @@ def step (st : State) (line : String) : State × String :=
     | some s => out "-" (recv (g == "1") st (wire s))     -- the harness sends the worker's entry through the real pipe format
     | none => (st, "bad-op")
   | ["thread"] => out "-" (threadPropagate st)
-  | ["wire"] => out (listStr (workerReport st)) st
+  | ["wire", sk] => out (listStr (workerReport (sk == "1") st)) st
   | ["ul", pm] => out (listStr (unmatchedLocal (bitsAt pm st) st)) st
   | ["ug"] => out (listStr (unmatchedGlobal st)) st
   | ["ui"] => out (listStr (unmatchedInline st)) st
